@@ -54,6 +54,10 @@ PAIRS = {
     'Ipv6ExtensionsSlice::from_slice': ['h_pairs::p_ext_walk_strict'],
     'Ipv6ExtensionsSlice::from_slice_lax': ['h_pairs::p_ext_walk_lax'],
     '<Iterator for Ipv6ExtensionSliceIter>::next': ['h_pairs::p_ext_walk_lax'],
+    # IP boundary: executable mirror of the contracts (kani/src/h_pairs.rs)
+    'Ipv6Slice::from_slice': ['h_pairs::p_ipv6_boundary_strict'],
+    'Ipv4Slice::from_slice': ['h_pairs::p_ipv4_boundary_strict'],
+    'IpSlice::from_slice': ['h_pairs::p_ipv6_boundary_strict', 'h_pairs::p_ipv4_boundary_strict'],
     # checksums: protocol-level harnesses with the RFC oracle (small payloads) + the 64 KiB boundary harnesses
     'UdpHeader::calc_checksum_post_ip': ['h_builder::c09_k_proto_udp_ipv4', 'h_builder::c09_k_proto_udp_ipv6'],
     'UdpHeader::calc_checksum_ipv4_internal': ['h_builder::c09_k_proto_udp_ipv4'],
@@ -304,7 +308,11 @@ harness('h_builder::c10_size_arp', ['C10'], 'bounded (address lengths 0..=8)', '
 harness('h_builder::c10_limits_eth_ipv4_udp', ['C10', 'C14'], 'complete for n in limit+1..=limit+2 (error side only)', 'eth+ipv4+udp payload above 65535-20-8: Err(PayloadLen) with real limit, nothing above L2 emitted, size() exact', tier='thorough', bound='error side only', timeout=1800)
 
 # ---- C09 at the 64 KiB boundary (paired harnesses for the unbounded Verus proofs; oracle h_builder::ref_*) ---------------------
-harness('h_big::c09_k_big_tcp_slice_ipv6', ['C09'], 'bounded (one length: 65556 B segment, zero body; symbolic addresses + header; add_slice stubbed by zero-tail ideal accumulator)', 'TcpSlice::calc_checksum_ipv6 == RFC 9293/8200 checksum with the 32 bit length in the pseudo header', tier='thorough', bound='1 length (65556 B)', timeout=900)
+harness('h_big::c09_k_big_tcp_slice_ipv6', ['C09'], 'bounded (one length: 65556 B segment, zero body; symbolic addresses + header; add_slice stubbed by zero-tail ideal accumulator)', 'TcpSlice::calc_checksum_ipv6 == RFC 9293/8200 checksum with the 32 bit length in the pseudo header', tier='thorough', bound='1 length (65556 B)', timeout=1800)
 harness('h_big::c09_k_big_tcp_header_slice_ipv6', ['C09'], 'bounded (one length: 20 B header + 65536 B zero payload)', 'TcpHeaderSlice::calc_checksum_ipv6_raw, same', tier='thorough', bound='1 length', timeout=600)
 harness('h_big::c09_k_big_tcp_header_ipv6', ['C09'], 'bounded (one length: header without options + 65536 B zero payload; syn/ece/cwr symbolic)', 'TcpHeader::calc_checksum_ipv6_raw, same', tier='thorough', bound='1 length', timeout=600)
 harness('h_big::c09_k_big_icmpv6', ['C09'], 'bounded (one length: echo request + 65536 B zero payload)', 'Icmpv6Type::calc_checksum with the 32 bit length in the pseudo header', tier='thorough', bound='1 length', timeout=600)
+
+# ---- IP boundary against an executable mirror of the contracts (paired harnesses, also part of the regular checks) ------------------
+harness('h_pairs::p_ipv6_boundary_strict', ['C03', 'C06', 'C07'], 'bounded (all inputs <= 64 B with version nibble 6, <= 3 extension headers)', 'Ipv6Slice::from_slice and IpSlice::from_slice == RFC 8200 reference boundary / reference fault (layer, offset, lengths, length source)', tier='quick', bound='N=64, unwind 5', timeout=900)
+harness('h_pairs::p_ipv4_boundary_strict', ['C03', 'C06', 'C07'], 'bounded (all inputs <= 48 B with version nibble 4)', 'Ipv4Slice::from_slice and IpSlice::from_slice == RFC 791 / RFC 4302 reference boundary / fault', tier='quick', bound='N=48, unwind 4', timeout=600)
